@@ -5,6 +5,7 @@ import (
 	"encoding/binary"
 	"encoding/json"
 	"fmt"
+	"io"
 	"math"
 	"math/big"
 	"reflect"
@@ -53,8 +54,8 @@ type C16Case struct {
 	Trees    []JNode  `json:"trees,omitempty"` // json-seq: objects written one after the other; the handler behind the codec keeps the emitted messages
 }
 
-var jsonKeys = []string{"a", "b", "key", "", "ключ", "k\"q", "tab\t", "é", "long-key-with-many-chars", "x y", "\\", "/", "<&>", "🙂"}
-var jsonStrs = []string{"", "x", "hello world", "\"quoted\"", "line\nbreak", " ", "日本語", "\x00nul", "a\\b", "</script>", "🙂🙂"}
+var jsonKeys = []string{"k\\u003c", "a", "b", "key", "", "ключ", "k\"q", "tab\t", "é", "long-key-with-many-chars", "x y", "\\", "/", "<&>", "🙂"}
+var jsonStrs = []string{"\\u003c", "a\\u0026b\\u003e", "<&>", "\\", "\\n", "", "x", "hello world", "\"quoted\"", "line\nbreak", " ", "日本語", "\x00nul", "a\\b", "</script>", "🙂🙂"}
 var jsonNums = []string{"0", "-0", "1", "-1", "42", "9007199254740992", "9007199254740993", "-9007199254740993", "9223372036854775807",
 	"-9223372036854775808", "18446744073709551615", "1.5", "-2.25", "0.1", "1e10", "1E-7", "1.7976931348623157e308", "5e-324",
 	"123456789012345678901234567890", "3.141592653589793238462643383279", "1e400"}
@@ -138,7 +139,7 @@ func genC16(t *rapid.T) C16Case {
 		c.Carrier = "bytes"
 		return c
 	}
-	c.Carrier = rapid.SampledFrom([]string{"bytes", "breader", "buffer", "frag", "string", "via-lf", "via-fixed"}).Draw(t, "carrier")
+	c.Carrier = rapid.SampledFrom([]string{"bytes", "breader", "buffer", "frag", "string", "via-lf", "via-fixed", "breader-used", "sreader-used"}).Draw(t, "carrier")
 	if c.Carrier == "frag" || c.Carrier == "via-lf" || c.Carrier == "via-fixed" {
 		c.Cuts = rapid.SliceOfN(rapid.IntRange(1, 9), 1, 8).Draw(t, "cuts")
 	}
@@ -381,6 +382,17 @@ func inboundCarrier(kind string, data []byte, cuts []int) interface{} {
 	switch kind {
 	case "via-lf", "via-fixed":
 		return viaFrameDecoder(kind, data, cuts)
+	case "breader-used", "sreader-used":
+		// a handler in front of the codec has read a tag from the frame and hands the same reader on
+		all := append([]byte("T:"), data...)
+		if kind == "breader-used" {
+			r := bytes.NewReader(all)
+			_, _ = io.ReadFull(r, make([]byte, 2))
+			return r
+		}
+		r := strings.NewReader(string(all))
+		_, _ = io.ReadFull(r, make([]byte, 2))
+		return r
 	case "breader":
 		return bytes.NewReader(append([]byte{}, data...))
 	case "buffer":
@@ -414,7 +426,7 @@ func runC16(c C16Case) (out core.Outcome) {
 	if c.Mode == "json-seq" {
 		return runC16JSONSeq(c, cls, out)
 	}
-	if c.Loop && c.Carrier != "via-lf" && c.Carrier != "via-fixed" {
+	if c.Loop && c.Carrier != "via-lf" && c.Carrier != "via-fixed" && c.Carrier != "breader-used" && c.Carrier != "sreader-used" {
 		cls.Add("layer:channel")
 		return runC16Loop(c, cls, out)
 	}
